@@ -161,6 +161,7 @@ def register(R):
             'range_header_is_the_parts_window': (z3.And([c.engine.as_u_term(e.kwargs['Range'], c.new.st) == want for e in go] + [B(bool(go) and okr)]), ['C02', 'C14']),
             # the requested object version / encryption key etc. is the user's: extra args reach every GET
             'users_extra_args_reach_every_get_object': (B(bool(go) and all(splat_has(e, c.old.st, c.a_extra_args) for e in go)), ['C15', 'C02']),
+            **R.budget_clause(c, c.old.f(c.oldf('_config'), 'num_download_attempts'), ['C03']),
         }
 
     R.contract(
@@ -454,14 +455,16 @@ def register_legacy_front(R):
         return {'returns_after_an_attempt_that_completed': (B(last is not None and last.extra.get('raised') is None), ['C02', 'C03']),
                 'every_attempt_uses_the_users_arguments': (B(all(
                     e.extra['env']['bucket'] is c.a_bucket and e.extra['env']['key'] is c.a_key and e.extra['env']['filename'] is c.a_filename
-                    and e.extra['env']['extra_args'] is c.a_extra_args and e.extra['env']['callback'] is c.a_callback for e in d)), ['C15', 'C02'])}
+                    and e.extra['env']['extra_args'] is c.a_extra_args and e.extra['env']['callback'] is c.a_callback for e in d)), ['C15', 'C02']),
+                **R.budget_clause(c, c.old.f(c.oldf('_config'), 'num_download_attempts'), ['C03'])}
 
     cgo = R.contracts[f'{S3T}._get_object']
     cgo.params = dict(bucket=ExtT('str'), key=ExtT('str'), filename=ExtT('str'), extra_args=EXTRA, callback=OptT(ExtT('legacy_cb')))
     cgo.props, cgo.checks = ('C02', 'C03', 'C15'), go_checks
     cgo.setup = lambda eng, st, args, self_val: st.assume(st.obj(st.obj(self_val).fields['_config']).fields['num_download_attempts'] > 0)
     cgo.raises = {'s3transfer.exceptions:RetriesExceededError': lambda c: {'only_after_the_attempt_budget_is_used_up': (B(
-        len([e for e in c.trace if e.kind == 'loop']) == 1), ['C03'])}, 'Exception': lambda c: {}}
+        len([e for e in c.trace if e.kind == 'loop']) == 1), ['C03']),
+        **R.budget_clause(c, c.old.f(c.oldf('_config'), 'num_download_attempts'), ['C03'])}, 'Exception': lambda c: {}}
     cgo.loops = {0: LoopSpec(invariant=lambda l: {}, iteration_checks=go_iteration, local_types={'last_exception': OptT(ExtT('exception'))})}
 
 
